@@ -1,3 +1,4 @@
+import Sparrow.Proofs.BakeGlueEquiv
 import Sparrow.Proofs.BakeKernelEquiv
 import Sparrow.Proofs.KernelCorollaries
 import Sparrow.Proofs.PipelineEnergy
@@ -186,3 +187,23 @@ theorem addDirectional_eq (P D nIn B W T : Nat) (energy_0 : Nat → Nat → ℝ)
   Sparrow.addDirectional_eq P D nIn B W T energy_0 src pc wall sources receivers scat sidx vis F area att s0 s1 s2 s3 s4 s5 i d b hi
 
 end Sparrow.Props.C01.BakeKernels
+
+namespace Sparrow.Props.C01.BakeGlue
+open Sparrow Sparrow.Generated.BakeGlue Sparrow.Generated.BakeKernels
+
+/-- **the baked factors** are the model's `fft` of the scene read off the stored state: visibility matrix and form factors
+    as stored by this very call, materials as installed (none: the Lambertian default), attenuation as set -/
+theorem bakeGeometry_fft
+    (vis2 : (Nat → Nat → ℝ) → (Nat → Nat → ℝ) → (Nat → Nat → Nat → ℝ) → Nat → Nat → Bool)
+    (ffu : (Nat → Nat → Nat → ℝ) → (Nat → Nat → ℝ) → (Nat → ℝ) → Nat → (Nat → Nat → Nat) → Nat → Nat → ℝ)
+    (P : Nat) (pc pn : Nat → Nat → ℝ) (pp : Nat → Nat → Nat → ℝ) (pa : Nat → ℝ) (ptw : Nat → Nat)
+    (hasM : Bool) (W nIn D T : Nat) (dIn dOut : Nat → Nat → Nat → ℝ) (bidx : Nat → Nat) (brdf : Nat → Nat → Nat → Nat → ℝ)
+    (fnone : Bool) (B : Nat) (att : Option (Nat → ℝ)) (junk : Nat → Nat → Nat)
+    (i j d b : Nat) (hi : i < P) (hj : j < P) :
+    (bakeGeometry vis2 ffu P pc pn pp pa ptw hasM W nIn D T dIn dOut bidx brdf fnone B att junk).2.2.2.2 i j d b =
+      (bakeSceneOfArgs P D nIn (vis2 pc pn pp)
+        (bakeGeometry vis2 ffu P pc pn pp pa ptw hasM W nIn D T dIn dOut bidx brdf fnone B att junk).2.2.1
+        pc pa att ptw (if hasM = true then some brdf else none) bidx dIn dOut b).fft i j d :=
+  Sparrow.bakeGeometry_fft vis2 ffu P pc pn pp pa ptw hasM W nIn D T dIn dOut bidx brdf fnone B att junk i j d b hi hj
+
+end Sparrow.Props.C01.BakeGlue
